@@ -44,6 +44,7 @@ import (
 	"verif/model/t1fonts"
 	"verif/model/t1gen"
 	"verif/model/t1model"
+	"verif/model/t1raw"
 )
 
 var formats = []type1.FileFormat{type1.FormatPFA, type1.FormatPFB, type1.FormatBinary, type1.FormatNoEExec}
@@ -236,6 +237,12 @@ func clip(b []byte, n int) string {
 	return fmt.Sprintf("%q", b)
 }
 
+// sloppyFont says `/Encoding StandardEncoding def` and then stores into that array, and into systemdict.
+var sloppyFont = t1raw.Build(t1raw.FontSpec{EncLenIV: 4,
+	Top:    "StandardEncoding 39 /quotesingle put StandardEncoding 65 /Alpha put StandardEncoding 66 /.notdef put StandardEncoding 96 /grave put systemdict /zzsloppy 1 put\n",
+	Glyphs: map[string][]byte{".notdef": {139, 248, 136, 13, 14}, "A": {139, 248, 136, 13, 14}},
+	Order:  []string{".notdef", "A"}})
+
 func body(fonts []*t1model.Font) func(c *mc.Ctx, item int) mc.Verdict {
 	sc := t1gen.Scope{Global: true, Glyph: true, Unusual: true}
 	return func(c *mc.Ctx, item int) mc.Verdict {
@@ -258,6 +265,12 @@ func body(fonts []*t1model.Font) func(c *mc.Ctx, item int) mc.Verdict {
 			v := mc.Fail(key, detail+" || "+render())
 			v.Render = render()
 			return v
+		}
+		if item%4 == 1 {
+			// one input in four is read after the process has read a font program that
+			// stores into StandardEncoding and the other system objects in place
+			// (what one font program does is that font's business only)
+			type1.Read(bytes.NewReader(sloppyFont))
 		}
 		F1, err := type1.Read(bytes.NewReader(x))
 		c.Step()
